@@ -11,6 +11,8 @@ import (
 	"math/big"
 	"testing"
 
+	"github.com/bnb-chain/tss-lib/v2/common"
+	"github.com/bnb-chain/tss-lib/v2/crypto"
 	"github.com/bnb-chain/tss-lib/v2/tss"
 	"verif/harness/ref"
 
@@ -96,14 +98,15 @@ func seq(n int) []int {
 }
 
 type c02Case struct {
-	Key     keyChoice
-	Signers []int
-	Msg     B
-	LenCls  string
-	FBL     bool // pass fullBytesLen = len(Msg)
-	Sched   SchedSpec
-	Steer   string // "", "r-lead0", "s-lead0", "r+s-lead0": force an encoding with a zero top byte
-	SteerSd int
+	Key       keyChoice
+	Signers   []int
+	Msg       B
+	LenCls    string
+	FBL       bool // pass fullBytesLen = len(Msg)
+	Sched     SchedSpec
+	Steer     string // "", "r-lead0", "s-lead0", "r+s-lead0": force an encoding with a zero top byte
+	SteerSd   int
+	ShortSSID bool // dealer keys only: search for a key whose session id has a leading zero byte
 }
 
 func genC02(t *rapid.T) c02Case {
@@ -139,7 +142,25 @@ func genC02(t *rapid.T) c02Case {
 	c.Sched = genSched(t, len(c.Signers), schedNoDup)
 	c.Steer = rapid.SampledFrom([]string{"", "", "", "r-lead0", "s-lead0", "r+s-lead0"}).Draw(t, "steer")
 	c.SteerSd = rapid.IntRange(0, 1<<30).Draw(t, "steerseed")
+	c.ShortSSID = c.Key.Src == "dealer" && rapid.IntRange(0, 3).Draw(t, "shortssid") == 0
 	return c
+}
+
+// edSigningSSID: see ecSigningSSID.
+func edSigningSSID(data []edkeygen.LocalPartySaveData, signers []int) []byte {
+	var shareIDs []*big.Int
+	for _, i := range signers {
+		shareIDs = append(shareIDs, data[i].ShareID)
+	}
+	ids := sim.MakeIDs("s", shareIDs)
+	sub := edkeygen.BuildLocalSaveDataSubset(data[signers[0]], ids)
+	p := tss.Edwards().Params()
+	list := []*big.Int{p.P, p.N, p.Gx, p.Gy}
+	list = append(list, ids.Keys()...)
+	flat, _ := crypto.FlattenECPoints(sub.BigXj)
+	list = append(list, flat...)
+	list = append(list, big.NewInt(1), big.NewInt(0))
+	return common.SHA512_256i(list...).Bytes()
 }
 
 // planSteerEd chooses the signers' nonces r_i (first draw of each signer's random source) so that the
@@ -211,6 +232,15 @@ func runC02(c c02Case) ev.Outcome {
 	fail := func(sig, f string, a ...interface{}) ev.Outcome {
 		out.Err, out.Sig = fmt.Errorf(f, a...), sig
 		return out
+	}
+	if c.ShortSSID && c.Key.Src == "dealer" {
+		var short bool
+		c.Key.Seed, short = shortSSIDSeed(c.Key, func(sd string) []byte {
+			return edSigningSSID(dealKeys(true, c.Key.N, c.Key.T, c.Key.Pattern, sd).ED, c.Signers)
+		})
+		if short {
+			out.Label += " ssid<32B"
+		}
 	}
 	data, _, secret, err := c.Key.resolveED()
 	if err != nil {
